@@ -277,7 +277,7 @@ pub fn run(args: &Args, rep: &mut Report) {
     }
     rep.distinct_by_construction += exh;
     rep.count("exhaustive_cases", exh);
-    let n = args.get_u64("n", if miri { 10 } else if t { 2_000_000 } else { 100_000 });
+    let n = args.get_u64("n", if miri { 10 } else if t { 10_000_000 } else { 100_000 });
     for i in 0..n {
         if !args.mine(i) {
             continue;
